@@ -140,6 +140,44 @@ pub fn check_try_new(len: usize) -> Vec<(&'static str, String, String)> {
     out
 }
 
+/// Frames chosen to collide on everything a careless cache or scratch buffer could be keyed on: same length, address,
+/// type and byte sum with different data; address bytes swapped; address/type swapped; long permuted data.
+pub fn colliding_frames(seed: u64) -> Vec<(u16, u8, Vec<u8>)> {
+    let long = fill(255, 9, seed);
+    let mut rev = long.clone();
+    rev.reverse();
+    vec![
+        (0x0010, 0, vec![1, 2, 4, 8]),
+        (0x0010, 0, vec![8, 4, 2, 1]),
+        (0x0010, 0, vec![2, 1, 8, 4]),
+        (0x0010, 0, vec![15, 0, 0, 0]),
+        (0x0102, 5, vec![7]),
+        (0x0201, 5, vec![7]),
+        (0x0001, 2, vec![]),
+        (0x0002, 1, vec![]),
+        (0x0100, 2, vec![]),
+        (0x0000, 0, long),
+        (0x0000, 0, rev),
+        (0xFFFF, 0xFF, vec![0xFF; 16]),
+    ]
+}
+
+/// Encodes/decodes a SEQUENCE of frames on one fresh thread; every step must behave as if it were the first.
+pub fn check_frame_sequence(frames: Vec<(u16, u8, Vec<u8>)>) -> Vec<(&'static str, String, String)> {
+    crate::util::in_fresh_thread(move || {
+        for (k, (a, t, d)) in frames.iter().enumerate() {
+            let vs = check_frame(*a, *t, d);
+            if let Some((clause, class, detail)) = vs.into_iter().next() {
+                if k == 0 {
+                    return vec![(clause, class, detail)];
+                }
+                return vec![("history-independent", format!("step-{}:{}", k.min(2), clause), format!("step {} of a sequence on one thread (after {} earlier frame(s) with the same length/address/type/byte sum): {}", k, k, detail))];
+            }
+        }
+        vec![]
+    })
+}
+
 pub fn check_from_array() -> Vec<(&'static str, String, String)> {
     let r = catch(|| {
         let ds: [(Data<'static>, &[u8]); 5] = [
@@ -261,6 +299,29 @@ pub fn run(ctx: &Ctx) -> Report {
     for (clause, class, detail) in check_from_array() {
         rep.violation(Violation::new(clause, class, detail, json!({"kind": "from_array"}), (3u64 << 40) + 1000));
     }
+    // (v) call sequences: all ordered pairs and triples of the colliding frames, each on a fresh thread
+    let cf = colliding_frames(seed);
+    let n = cf.len() as u64;
+    let nseq = n * n + n * n * n;
+    let accs = par_range(nseq, 16, Acc::default, |acc, i| {
+        let idx: Vec<usize> = if i < n * n { vec![(i / n) as usize, (i % n) as usize] } else { let j = i - n * n; vec![(j / (n * n)) as usize, ((j / n) % n) as usize, (j % n) as usize] };
+        acc.evals += idx.len() as u64;
+        let frames: Vec<(u16, u8, Vec<u8>)> = idx.iter().map(|&k| cf[k].clone()).collect();
+        for (clause, class, detail) in check_frame_sequence(frames.clone()) {
+            acc.violation(ID, Violation::new(clause, class, detail, json!({"kind": "sequence", "frames": frames.iter().map(|f| json!({"addr": f.0, "type": f.1, "data": hex(&f.2)})).collect::<Vec<_>>()}), (4u64 << 40) + i));
+        }
+    });
+    let mut seq = Acc::default();
+    for a in accs {
+        seq.merge(ID, a);
+    }
+    let seq_evals = seq.evals;
+    for (_, v) in std::mem::take(&mut seq.viol) {
+        rep.violation(v);
+    }
+    rep.evaluations += seq_evals;
+    rep.transitions += seq_evals;
+    rep.set("call_sequences", json!({"colliding_frames": n, "sequences": nseq, "note": "each sequence runs on a fresh thread so that state carried between calls is reproducible"}));
     rep.evaluations += limit_cases;
     rep.transitions += limit_cases;
     rep.set("sub_domains", Value::Array(sub));
@@ -281,6 +342,10 @@ pub fn replay(_ctx: &Ctx, case: &Value) -> Result<Vec<Violation>, String> {
                 .into_iter()
                 .map(|(c, k, d)| Violation::new(c, k, d, case.clone(), 0))
                 .collect())
+        }
+        Some("sequence") => {
+            let frames: Vec<(u16, u8, Vec<u8>)> = case["frames"].as_array().ok_or("frames")?.iter().map(|f| (f["addr"].as_u64().unwrap() as u16, f["type"].as_u64().unwrap() as u8, unhex(f["data"].as_str().unwrap()))).collect();
+            Ok(check_frame_sequence(frames).into_iter().map(|(c, k, d)| Violation::new(c, k, d, case.clone(), 0)).collect())
         }
         Some("try_new") => {
             let l = case["len"].as_u64().ok_or("len")? as usize;
